@@ -19,10 +19,12 @@ for m in re.finditer(r"@@BEGIN (\S+)\n(.*?)(?=@@BEGIN|@@END)", out, re.S):
     body = m.group(2)
     i = body.index("\n     : ")
     stmts[m.group(1)] = " ".join(x.strip() for x in body[i + 8:].strip().splitlines())
-lines = ["(** %s *)" % spec["title"], "From SQ Require Import %s." % spec["imports"], spec.get("pre", ""), ""]
+append = spec.get("append", False)
+lines = ["", "(** ---- %s ---- *)" % spec["title"], "From SQ Require Import %s." % spec["imports"], spec.get("pre", ""), ""] if append else \
+        ["(** %s *)" % spec["title"], "From SQ Require Import %s." % spec["imports"], spec.get("pre", ""), ""]
 for t, l, d in spec["theorems"]:
     s = stmts[l]
     lines += ["(** %s *)" % d, "Theorem %s : %s.\nProof. exact %s. Qed." % (t, s, l), "Check %s : %s." % (t, s), "Print Assumptions %s.\n" % t]
 lines.append(spec.get("post", ""))
-open(os.path.join(COQ, "Properties", pid + ".v"), "w").write("\n".join(lines) + "\n")
+open(os.path.join(COQ, "Properties", pid + ".v"), "a" if append else "w").write("\n".join(lines) + "\n")
 print(pid, len(spec["theorems"]), "theorems")
